@@ -161,6 +161,9 @@ theorem cancel_rescans (s : KState ℚ σ) (e : EvId) (r : ResId) (hk : (s.ev e)
 /-! non-vacuity -/
 example : listMin [5, 2, 9, 2] = some 2 := by decide
 
+section ConserveBlock
+open Conserve
+
 /-! ## ===== b-conserve: global conservation theorems (whole runs, every program) — BEGIN =====
 
 Vocabulary (`Lemmas/Conserve*.lean`).  A request event is *granted* exactly when it is triggered.
@@ -234,7 +237,7 @@ theorem queues_hold_pending_requests (body : σ → Resume → Burst ℚ σ) (fu
 
 /-- **The domain hypothesis is satisfiable by whole classes of programs**: for a program that never calls
 `succeed`/`fail`, every reachable state is reachable inside the domain. -/
-theorem domain_covers_programs_without_succeed (body : σ → Resume → Burst ℚ σ) (h : ∀ st rs, (body st rs).NoTrig)
+theorem domain_covers_programs_without_succeed (body : σ → Resume → Burst ℚ σ) (h : ∀ st rs, NoTrig (body st rs))
     (fuel : Nat) (s0 s : KState ℚ σ) (hr : KReach body fuel s0 s) : SafeReach body fuel s0 s :=
   safeReach_of_noTrig body h fuel s0 s hr
 
@@ -415,5 +418,6 @@ example : (ExBad.s0.res 0).level = 1 ∧ (ExBad.s1.res 0).level = 1 ∧ amountSu
     grantedGets ExBad.s1 0 = [] := by decide +kernel
 
 /-! ## ===== b-conserve — END ===== -/
+end ConserveBlock
 
 end C07
